@@ -44,13 +44,18 @@ def apply_contract(eng, st, con, pos, kw, constructing=None):
         st, selfv = con.result(eng, st, E0)
         a["self"] = selfv
         E0 = Env(a, st, eng=eng)
+    ax = con.axioms(E0)
+    if ax:
+        known = {c.get_id() for c in st.pc}
+        st = st.assume(*[c for c in ax if c.get_id() not in known])
+        E0 = Env(a, st, eng=eng)
     pre = con.pre(E0)
     if not z3.is_true(pre):
         eng.oblige(st, pre, f"call:{con.key}/pre", kind="callpre")
         st = st.assume(pre)
     res = []
     reqs = []
-    for case in con.cases:
+    for case in (getattr(con, "call_cases", None) or con.cases):
         applies = getattr(case, "applies", None)
         if applies is not None and not applies(a, st):
             continue
